@@ -635,3 +635,20 @@ def templates_in(facts, crate, h):
         if n.get("k") == "macro" and n["name"] in ("quote", "quote_spanned"):
             out.append((n, anc, facts.template_at(n["sp"])))
     return out
+
+
+def norm_arm(arm):
+    """(pattern, guard, body-last) of a match arm with binder names replaced by $0, $1 .. in order of appearance,
+    so that rules do not depend on the names chosen for pattern bindings."""
+    import re as _re
+    names = []
+    for b, _ in walk(arm["pat"]):
+        if b.get("k") == "bind" and b["name"] not in names:
+            names.append(b["name"])
+
+    def sub(s):
+        for i, n in enumerate(names):
+            s = _re.sub(r"(?<![\w.])%s(?!\w)" % _re.escape(n), "$%d" % i, s)
+        return s
+
+    return (sub(psrc(arm["pat"])).replace(" ", ""), sub(src(arm["guard"])) if arm.get("guard") else "", sub(src(block_last(arm["body"]))))
